@@ -216,14 +216,82 @@ def r14e(ck, prog):
     ck.floor("R14e", n, 28, "spelling twins")
 
 
+LOGGERS = ("log_message", "warning", "error", "message", "fprintf", "printf", "snprintf")
+
+
+def r14g(ck, prog):
+    """the counts of particular spellings are looked at only where the kind is decided: every read of an element of
+    msa.letter_freq outside detect_alphabet (and its private helpers) is the additive merge into another histogram or feeds a
+    diagnostic message only.  A read of the count of a particular letter anywhere else makes the computation depend on how the
+    residues were spelled (R14e shows that the kind decision itself does not)"""
+    from .c13 import _detect_fns
+    from ..model import access_mode
+    from ..util import const_value
+    _, dfns = _detect_fns(prog)
+    dnames = {f.name for f in dfns}
+    n = 0
+    for F in prog.lib_functions():
+        for m in F.body.find("MemberExpr"):
+            if m.d.get("field") != "letter_freq" or m.d.get("rec") != "msa":
+                continue
+            p, c = m.up(casts=True)
+            if p is None or p.k != "ArraySubscriptExpr" or not c.within(p.kids[0]):
+                continue                      # the array as a whole (handed to memset / sizeof): no element is looked at
+            if access_mode(p) != "read":
+                continue
+            n += 1
+            where = site(prog, p, "letter_freq")
+            if F.name in dnames:
+                ck.inst("R14g", where, "%s (kind decision) reads %s" % (F.name, p.text()), prog.config)
+                continue
+            q, qc = p.up(casts=True)
+            # additive merge: X->letter_freq[i] += Y->letter_freq[i]  /  = X + Y
+            a = p
+            while a is not None and a.k not in ("CompoundAssignOperator", "BinaryOperator", "CallExpr", "IfStmt", "ForStmt", "WhileStmt", "ReturnStmt", "CompoundStmt") \
+                    or (a is not None and a.k == "BinaryOperator" and a.d["op"] in ("+",)):
+                a = a.parent
+            if a is not None and a.k in ("CompoundAssignOperator", "BinaryOperator") and a.d["op"] in ("+=", "=") and \
+                    "letter_freq" in a.kids[0].text() and p.within(a.kids[1]):
+                ck.inst("R14g", where, "%s adds %s into %s" % (F.name, p.text(), a.kids[0].text()), prog.config)
+                continue
+            # diagnostics: argument of a logging call, or the condition of an if whose branches only log
+            anc = list(p.ancestors())
+            call = next((x for x in anc if x.k == "CallExpr"), None)
+            if call is not None and call.callee in LOGGERS:
+                ck.inst("R14g", where, "%s prints %s" % (F.name, p.text()), prog.config)
+                continue
+            ifs = next((x for x in anc if x.k == "IfStmt"), None)
+            if ifs is not None and p.within(ifs.child("cond")):
+                body = [b for b in (ifs.child("then"), ifs.child("else")) if b is not None]
+                calls = [x for b in body for x in b.calls()]
+                stores = [x for b in body for x in b.walk() if (x.k == "BinaryOperator" and x.d["op"] == "=") or x.k == "CompoundAssignOperator" or
+                          (x.k == "UnaryOperator" and x.d["op"] in ("++", "--")) or x.k in ("ReturnStmt", "GotoStmt", "BreakStmt", "ContinueStmt")]
+                if calls and all(x.callee in LOGGERS for x in calls) and not stores:
+                    ck.inst("R14g", where, "%s tests %s to decide whether to print a message" % (F.name, p.text()), prog.config)
+                    continue
+            idx = p.kids[1].strip(casts=True)
+            if const_value(idx) is not None or idx.k == "CharacterLiteral":
+                v = const_value(idx)
+                ck.inst("R14g", where, "%s reads the count of one spelling: %s" % (F.name, p.text()), prog.config)
+                ck.violation("R14g", "R14g/%s/letter_freq" % F.name, where,
+                             "%s looks at %s - the number of times the input spells a residue as %s - outside the kind decision: writing the "
+                             "same residues in the other case / as T instead of U changes what %s does" % (
+                                 F.name, p.text(), repr(chr(v)) if v is not None and 32 <= v < 127 else idx.text(), F.name), prog.config)
+                continue
+            raise AnalysisBroken("R14g: %s reads %s outside the kind decision; whether the use is spelling-blind is not decided" % (F.name, p.text()))
+    ck.floor("R14g", n, 4, "reads of letter_freq elements")
+
+
 def run(ck, progs):
     describe(ck)
+    ck.rule("R14g", "elements of msa.letter_freq are read only by the kind decision, by the additive merge into another histogram and by diagnostics: no other code looks at the count of a particular spelling")
     ck.rule("R14f", "in each reader a letter and its other-case twin take the same branch of the character classification (all 26 pairs evaluated)")
     ck.rule("R14e", "each letter's margin in the kind decision (nucleotide weight - protein weight) equals that of its case twin, and T's equals U's: the decision is linear in the histogram, so this is exactly spelling-invariance")
     for cfg, prog in progs.items():
         ck.attempt(r14a, ck, prog)
         ck.attempt(r14bc, ck, prog)
         ck.attempt(r14e, ck, prog)
+        ck.attempt(r14g, ck, prog)
         from . import c04
         ck.attempt(c04.r04i, ck, prog, rule="R14f", case_only=True)
         b0 = len(ck.instances)
